@@ -49,6 +49,7 @@ MERGETOOL = {"merge": "mergetool", "input": None, "output": None, "transients": 
 
 
 def strategy(tier):
+    N.enable_long_texts(tier == "thorough")
     return st.tuples(N.triple(), st.lists(S.strategy_args(), min_size=2, max_size=2), st.booleans()).map(
         lambda t: {"base": t[0][0], "local": t[0][1], "remote": t[0][2], "shape": t[0][3],
                    "combos": [dict(MERGETOOL, transients=t[2])] + t[1]})
